@@ -5,8 +5,8 @@ import ring_common as R
 
 PROP = 'C13'
 BUILDS, MINIMISE, SHARD_TIMEOUT, ASSUMPTIONS, RULE = R.BUILDS, R.MINIMISE, R.SHARD_TIMEOUT, R.ASSUMPTIONS, R.RULE
-TRANSLATORS = R.TRANSLATORS + ['spinwait']     # Gen/SpinWait.lean (get_min_cursor_sequence, one pass of the spin wait loop), Props/C13WaitGen.lean
-EXTRA_THEOREM_MODULES = R.EXTRA_THEOREM_MODULES + ['DcVerif.Props.C13WaitGen', 'DcVerif.Props.C05Gen', 'DcVerif.Lemmas.RingMultiPay']
+TRANSLATORS = R.TRANSLATORS + ['spinwait', 'consumer']     # Gen/SpinWait.lean (get_min_cursor_sequence, one pass of the spin wait loop), Props/C13WaitGen.lean
+EXTRA_THEOREM_MODULES = R.EXTRA_THEOREM_MODULES + ['DcVerif.Props.C04Gen', 'DcVerif.Props.C13WaitGen', 'DcVerif.Props.C05Gen', 'DcVerif.Lemmas.RingMultiPay']
 classify, nontrivial = R.classify, R.nontrivial
 
 
